@@ -8,7 +8,7 @@ from .lib import decision, guards, paths
 from .lib.mir import AnchorLost
 from .lib.reachrule import ReachRule
 
-CONFIGS_QUICK = ["A"]
+CONFIGS_QUICK = ["A", "R"]
 CONFIGS_THOROUGH = ["A", "R"]
 TECHNIQUE = ("field-read exhaustiveness of the parsed serde-attribute structs over the proc-macro crate's MIR; panic reachability and API-misuse rules (identifier "
              'construction from arbitrary strings, splitting at letters) in the naming code; decision structure of the word-boundary test in the variant case '
